@@ -951,6 +951,8 @@ package bigbuff
 //@   maypanic
 //@   # only channels the notifier can send to are accepted
 //@   ensures sendable : rv_valid(ret) && rt_kind(rv_type(ret)) == 18 && ret == rv_of(target)
+//@   # reflect.SendDir == 2, reflect.BothDir == 3
+//@   ensures direction : rt_chandir(rv_type(ret)) == 2 || rt_chandir(rv_type(ret)) == 3
 
 //@ func NewChanCaster
 //@   props C08
